@@ -33,12 +33,14 @@ EXT_UNITS = [
     ext("Ei", [["a", 1], ["i", 1]]),                          # a port called like the internal bus of Series
     ext("Eunits", [["units", 1], ["i", 1], ["i_", 1]]),       # ... and like its instance array
     ext("Einner", [["inner", 1], ["p", 1], ["w", 2]]),
+    ext("Eelem", [["a", 1], ["units_0", 1], ["units_1", 1]]),  # ports called like the flattened array elements
 ]
 MOD_UNITS = [
     mod("Ubus", [["x", 1, "in"], ["y", 1, "out"], ["z", 2, "inout"], ["w", 1, "none"]]),
     mod("Ubun", [["x", 1, "in"], ["y", 1, "out"]], [["b", [["p", 1], ["q", 2]]]]),
     mod("Ubun2", [["s0", 1, "inout"], ["s1", 1, "inout"], ["v", 3, "in"]], [["b0", [["m", 1]]], ["b1", [["m", 1], ["k", 1]]]]),
     mod("Ui", [["i", 1, "in"], ["units", 1, "out"]], [["i_", [["p", 1]]]]),
+    mod("Uelem", [["units_0", 1, "in"], ["b", 1, "out"], ["units_1", 2, "inout"], ["units_2", 1, "none"]]),
 ]
 MOS_UNITS = [
     None,                                                      # MosStack's default unit
